@@ -199,6 +199,9 @@ class Exec:
             if ent[0] == "class":
                 return self.class_value(module, ent[1])
             if ent[0] == "import":
+                rp = self.repo.dotted_to_relpath(ent[1])
+                if rp:
+                    return self.lib.repo_module(self, rp)
                 return self.lib.namespace(ent[1])
             if ent[0] == "from":
                 rp = self.repo.dotted_to_relpath(ent[1] + "." + ent[2])
